@@ -712,11 +712,14 @@ class Drillhole(Points):
                 sort_ind = np.argsort(depths)
 
                 for child in self.children:
-                    if (
-                        isinstance(child, NumericData)
-                        and getattr(child.association, "name", None) == "VERTEX"
-                    ):
+                    if getattr(child.association, "name", None) != "VERTEX":
+                        continue
+                    if isinstance(child, NumericData):
                         child.values = child.format_values(child.values)[sort_ind]
+                    elif isinstance(child.values, (np.ndarray, str)):
+                        text = np.atleast_1d(child.values)
+                        padded = np.r_[text, [""] * (len(sort_ind) - len(text))]
+                        child.values = padded[sort_ind]
 
                 if self.vertices is not None:
                     self.vertices = self.vertices[sort_ind, :]
